@@ -55,6 +55,7 @@ def canon_tree(dt):
                time=_ticks(ds["time"].values) if "time" in ds.coords else [],
                y=_ints(ds["y"].values) if "y" in ds.coords else [],
                x=_ints(ds["x"].values) if "x" in ds.coords else [],
+               wl=_ints(ds["wavelength"].values) if "wavelength" in ds.coords else [],
                vars=[_var(k, v) for k, v in ds.data_vars.items()],
                inter=None, scene=[], data=[])
     from verif_probes_c03 import tree_payload
@@ -115,6 +116,7 @@ def handle(p):
     out = dict(result=res, error=err, result_nodebug=None)
     snaps = [e for e in trace if e["kind"] == "snap"]
     out["snaps"] = [[_ticks([e["abs_time"]])[0], e["snap"]] for e in snaps]
+    out["wl_seen"] = [_ints(e.get("wavelengths", [])) for e in snaps]
     out["scene_seen"] = [[k, _ints(v)] for k, v in snaps[-1]["scene"]] if snaps else []
     out["data_seen"] = [[k, _ints(v)] for k, v in snaps[-1]["data"]] if snaps else []
     out["mrecs"] = [dict(step=e["step"], group=e["group"], name=e["name"], before=e["before"], after=e["after"])
